@@ -17,7 +17,7 @@ def effectTable : List FnRow := [
   ⟨[], []⟩,  -- 3 astral.LocationInfo.timezone_group
   ⟨[], []⟩,  -- 4 astral.LocationInfo.tzinfo
   ⟨[], [7]⟩,  -- 5 astral.Observer.__setattr__
-  ⟨[.readsClock, .io], [117]⟩,  -- 6 astral.__main__.<module>
+  ⟨[.readsClock, .io], [124]⟩,  -- 6 astral.__main__.<module>
   ⟨[], []⟩,  -- 7 astral.dms_to_float
   ⟨[], []⟩,  -- 8 astral.geocoder.<module>
   ⟨[.mutatesParam], [12, 15]⟩,  -- 9 astral.geocoder._add_location_to_db  (store through db)
@@ -46,117 +46,130 @@ def effectTable : List FnRow := [
   ⟨[], []⟩,  -- 32 astral.location.<module>
   ⟨[], []⟩,  -- 33 astral.location.Location.__eq__
   ⟨[.mutatesParam], []⟩,  -- 34 astral.location.Location.__init__  (store through self; store through self; store through self)
-  ⟨[], []⟩,  -- 35 astral.location.Location.__repr__
-  ⟨[.unknownCall], [99]⟩,  -- 36 astral.location.Location.blue_hour  (call .today on self)
-  ⟨[.unknownCall], [100]⟩,  -- 37 astral.location.Location.dawn  (call .today on self)
-  ⟨[.unknownCall], [101]⟩,  -- 38 astral.location.Location.daylight  (call .today on self)
-  ⟨[.unknownCall], [102]⟩,  -- 39 astral.location.Location.dusk  (call .today on self)
-  ⟨[.unknownCall], [108]⟩,  -- 40 astral.location.Location.golden_hour  (call .today on self)
-  ⟨[], []⟩,  -- 41 astral.location.Location.info
-  ⟨[.mutatesParam], [7]⟩,  -- 42 astral.location.Location.latitude  (store through self)
-  ⟨[.mutatesParam], [7]⟩,  -- 43 astral.location.Location.longitude  (store through self)
-  ⟨[.unknownCall], [111]⟩,  -- 44 astral.location.Location.midnight  (call .today on self)
-  ⟨[.unknownCall], [81]⟩,  -- 45 astral.location.Location.moon_phase  (call .today on self)
-  ⟨[.unknownCall], [79]⟩,  -- 46 astral.location.Location.moonrise  (call .today on self)
-  ⟨[.unknownCall], [80]⟩,  -- 47 astral.location.Location.moonset  (call .today on self)
-  ⟨[.mutatesParam], []⟩,  -- 48 astral.location.Location.name  (store through self)
-  ⟨[.unknownCall], [113]⟩,  -- 49 astral.location.Location.night  (call .today on self)
-  ⟨[.unknownCall], [114]⟩,  -- 50 astral.location.Location.noon  (call .today on self)
-  ⟨[], []⟩,  -- 51 astral.location.Location.observer
-  ⟨[.unknownCall], [116]⟩,  -- 52 astral.location.Location.rahukaalam  (call .today on self)
-  ⟨[.mutatesParam], []⟩,  -- 53 astral.location.Location.region  (store through self)
-  ⟨[.unknownCall], [98]⟩,  -- 54 astral.location.Location.solar_azimuth  (call .now on astral)
-  ⟨[.mutatesParam], []⟩,  -- 55 astral.location.Location.solar_depression  (store through self; store through self; store through self)
-  ⟨[.unknownCall], [104]⟩,  -- 56 astral.location.Location.solar_elevation  (call .now on astral)
-  ⟨[.unknownCall], []⟩,  -- 57 astral.location.Location.solar_zenith  (call .solar_elevation on self)
-  ⟨[.unknownCall], [117]⟩,  -- 58 astral.location.Location.sun  (call .today on self)
-  ⟨[.unknownCall], [125]⟩,  -- 59 astral.location.Location.sunrise  (call .today on self)
-  ⟨[.unknownCall], [126]⟩,  -- 60 astral.location.Location.sunset  (call .today on self)
-  ⟨[.unknownCall], [127]⟩,  -- 61 astral.location.Location.time_at_elevation  (call .today on self)
-  ⟨[.mutatesParam], []⟩,  -- 62 astral.location.Location.timezone  (store through self)
-  ⟨[], [136]⟩,  -- 63 astral.location.Location.today
-  ⟨[.unknownCall], [129]⟩,  -- 64 astral.location.Location.twilight  (call .today on self)
-  ⟨[], []⟩,  -- 65 astral.location.Location.tzinfo
-  ⟨[], []⟩,  -- 66 astral.moon.<module>
-  ⟨[], [26]⟩,  -- 67 astral.moon._phase_asfloat
-  ⟨[], [28, 76, 88, 92]⟩,  -- 68 astral.moon.azimuth
-  ⟨[], [28, 76, 88, 92]⟩,  -- 69 astral.moon.elevation
-  ⟨[], []⟩,  -- 70 astral.moon.interpolate
-  ⟨[], [72, 75]⟩,  -- 71 astral.moon.longitude_lunar_ascending_node
-  ⟨[], []⟩,  -- 72 astral.moon.moon_argument_of_latitude
-  ⟨[], []⟩,  -- 73 astral.moon.moon_mean_anomoly
-  ⟨[], []⟩,  -- 74 astral.moon.moon_mean_elongation_from_sun
-  ⟨[], []⟩,  -- 75 astral.moon.moon_mean_longitude
-  ⟨[], [71, 72, 73, 74, 75, 77, 84, 85, 86]⟩,  -- 76 astral.moon.moon_position
-  ⟨[], []⟩,  -- 77 astral.moon.moon_position._calc_value
-  ⟨[.mutatesParam], [83]⟩,  -- 78 astral.moon.moon_transit_event  (store through window; store through window; store through window)
-  ⟨[], [82, 136]⟩,  -- 79 astral.moon.moonrise
-  ⟨[], [82, 136]⟩,  -- 80 astral.moon.moonset
-  ⟨[], [67, 136]⟩,  -- 81 astral.moon.phase
-  ⟨[], [28, 70, 76, 78, 83, 92]⟩,  -- 82 astral.moon.riseset
-  ⟨[], []⟩,  -- 83 astral.moon.sgn
-  ⟨[], []⟩,  -- 84 astral.moon.sun_mean_anomoly
-  ⟨[], []⟩,  -- 85 astral.moon.sun_mean_longitude
-  ⟨[], []⟩,  -- 86 astral.moon.venus_mean_longitude
-  ⟨[], [69]⟩,  -- 87 astral.moon.zenith
-  ⟨[.readsClock], []⟩,  -- 88 astral.now
-  ⟨[], []⟩,  -- 89 astral.refraction_at_zenith
-  ⟨[], []⟩,  -- 90 astral.sidereal.<module>
-  ⟨[], [28]⟩,  -- 91 astral.sidereal.gmst
-  ⟨[], [91]⟩,  -- 92 astral.sidereal.lmst
-  ⟨[], []⟩,  -- 93 astral.sun.<module>
-  ⟨[], [26, 31, 105]⟩,  -- 94 astral.sun._midnight_utc
-  ⟨[], [26, 31, 105]⟩,  -- 95 astral.sun._noon_utc
-  ⟨[], []⟩,  -- 96 astral.sun.adjust_to_horizon
-  ⟨[], []⟩,  -- 97 astral.sun.adjust_to_obscuring_feature
-  ⟨[], [88, 132]⟩,  -- 98 astral.sun.azimuth
-  ⟨[], [127, 136]⟩,  -- 99 astral.sun.blue_hour
-  ⟨[], [128, 136]⟩,  -- 100 astral.sun.dawn
-  ⟨[], [125, 126, 136]⟩,  -- 101 astral.sun.daylight
-  ⟨[], [128, 136]⟩,  -- 102 astral.sun.dusk
-  ⟨[], []⟩,  -- 103 astral.sun.eccentric_location_earth_orbit
-  ⟨[], [88, 131]⟩,  -- 104 astral.sun.elevation
-  ⟨[], [103, 106, 107, 130]⟩,  -- 105 astral.sun.eq_of_time
-  ⟨[], []⟩,  -- 106 astral.sun.geom_mean_anomaly_sun
-  ⟨[], []⟩,  -- 107 astral.sun.geom_mean_long_sun
-  ⟨[], [127, 136]⟩,  -- 108 astral.sun.golden_hour
-  ⟨[], []⟩,  -- 109 astral.sun.hour_angle
-  ⟨[], []⟩,  -- 110 astral.sun.mean_obliquity_of_ecliptic
-  ⟨[], [94, 136]⟩,  -- 111 astral.sun.midnight
-  ⟨[], []⟩,  -- 112 astral.sun.minutes_to_timedelta
-  ⟨[], [100, 102, 136]⟩,  -- 113 astral.sun.night
-  ⟨[], [95, 136]⟩,  -- 114 astral.sun.noon
-  ⟨[], [110]⟩,  -- 115 astral.sun.obliquity_correction
-  ⟨[], [125, 126, 136]⟩,  -- 116 astral.sun.rahukaalam
-  ⟨[], [100, 102, 114, 125, 126, 136]⟩,  -- 117 astral.sun.sun
-  ⟨[], [124]⟩,  -- 118 astral.sun.sun_apparent_long
-  ⟨[], [115, 118]⟩,  -- 119 astral.sun.sun_declination
-  ⟨[], [106]⟩,  -- 120 astral.sun.sun_eq_of_center
-  ⟨[], [103, 123]⟩,  -- 121 astral.sun.sun_rad_vector
-  ⟨[], [115, 118]⟩,  -- 122 astral.sun.sun_rt_ascension
-  ⟨[], [106, 120]⟩,  -- 123 astral.sun.sun_true_anomoly
-  ⟨[], [107, 120]⟩,  -- 124 astral.sun.sun_true_long
-  ⟨[], [114, 128, 131, 136]⟩,  -- 125 astral.sun.sunrise
-  ⟨[], [114, 128, 131, 136]⟩,  -- 126 astral.sun.sunset
-  ⟨[], [128, 136]⟩,  -- 127 astral.sun.time_at_elevation
-  ⟨[.writesGlobal], [26, 31, 89, 96, 97, 105, 109, 112, 119]⟩,  -- 128 astral.sun.time_of_transit  (_TRANSIT_CACHE.pop(...); store through _TRANSIT_CACHE)
-  ⟨[], [100, 102, 125, 126, 136]⟩,  -- 129 astral.sun.twilight
-  ⟨[], [115]⟩,  -- 130 astral.sun.var_y
-  ⟨[], [88, 132]⟩,  -- 131 astral.sun.zenith
-  ⟨[], [26, 31, 89, 105, 119]⟩,  -- 132 astral.sun.zenith_and_azimuth
-  ⟨[], []⟩,  -- 133 astral.table4.<module>
-  ⟨[], []⟩,  -- 134 astral.time_to_hours
-  ⟨[], [134]⟩,  -- 135 astral.time_to_seconds
-  ⟨[], [88]⟩  -- 136 astral.today
+  ⟨[], [43, 45, 51, 57, 68]⟩,  -- 35 astral.location.Location.__repr__
+  ⟨[.mutatesParam], []⟩,  -- 36 astral.location.Location._update_info  (store through self; store through self)
+  ⟨[], [43, 45, 68, 70, 72, 106]⟩,  -- 37 astral.location.Location.blue_hour
+  ⟨[], [43, 45, 60, 68, 70, 72, 107]⟩,  -- 38 astral.location.Location.dawn
+  ⟨[], [43, 45, 68, 70, 72, 108]⟩,  -- 39 astral.location.Location.daylight
+  ⟨[], [43, 45, 60, 68, 70, 72, 109]⟩,  -- 40 astral.location.Location.dusk
+  ⟨[], [43, 45, 68, 70, 72, 115]⟩,  -- 41 astral.location.Location.golden_hour
+  ⟨[], [43, 45, 51, 57, 68]⟩,  -- 42 astral.location.Location.info
+  ⟨[], []⟩,  -- 43 astral.location.Location.latitude
+  ⟨[.mutatesParam], [7, 36]⟩,  -- 44 astral.location.Location.latitude.setter
+  ⟨[], []⟩,  -- 45 astral.location.Location.longitude
+  ⟨[.mutatesParam], [7, 36]⟩,  -- 46 astral.location.Location.longitude.setter
+  ⟨[], [43, 45, 68, 70, 72, 118]⟩,  -- 47 astral.location.Location.midnight
+  ⟨[], [70, 88]⟩,  -- 48 astral.location.Location.moon_phase
+  ⟨[], [43, 45, 68, 70, 72, 86]⟩,  -- 49 astral.location.Location.moonrise
+  ⟨[], [43, 45, 68, 70, 72, 87]⟩,  -- 50 astral.location.Location.moonset
+  ⟨[], []⟩,  -- 51 astral.location.Location.name
+  ⟨[.mutatesParam], [36]⟩,  -- 52 astral.location.Location.name.setter
+  ⟨[], [43, 45, 68, 70, 72, 120]⟩,  -- 53 astral.location.Location.night
+  ⟨[], [43, 45, 68, 70, 72, 121]⟩,  -- 54 astral.location.Location.noon
+  ⟨[], [43, 45]⟩,  -- 55 astral.location.Location.observer
+  ⟨[], [43, 45, 68, 70, 72, 123]⟩,  -- 56 astral.location.Location.rahukaalam
+  ⟨[], []⟩,  -- 57 astral.location.Location.region
+  ⟨[.mutatesParam], [36]⟩,  -- 58 astral.location.Location.region.setter
+  ⟨[], [43, 45, 72, 95, 105]⟩,  -- 59 astral.location.Location.solar_azimuth
+  ⟨[], []⟩,  -- 60 astral.location.Location.solar_depression
+  ⟨[.mutatesParam], []⟩,  -- 61 astral.location.Location.solar_depression.setter  (store through self; store through self; store through self)
+  ⟨[], [43, 45, 72, 95, 111]⟩,  -- 62 astral.location.Location.solar_elevation
+  ⟨[], [62]⟩,  -- 63 astral.location.Location.solar_zenith
+  ⟨[.mutatesParam], [43, 45, 60, 68, 70, 72, 124]⟩,  -- 64 astral.location.Location.sun  (store through self)
+  ⟨[], [43, 45, 68, 70, 72, 132]⟩,  -- 65 astral.location.Location.sunrise
+  ⟨[], [43, 45, 68, 70, 72, 133]⟩,  -- 66 astral.location.Location.sunset
+  ⟨[], [43, 45, 68, 70, 72, 134]⟩,  -- 67 astral.location.Location.time_at_elevation
+  ⟨[], []⟩,  -- 68 astral.location.Location.timezone
+  ⟨[.mutatesParam], [36]⟩,  -- 69 astral.location.Location.timezone.setter
+  ⟨[], [72, 143]⟩,  -- 70 astral.location.Location.today
+  ⟨[], [43, 45, 68, 70, 72, 136]⟩,  -- 71 astral.location.Location.twilight
+  ⟨[], []⟩,  -- 72 astral.location.Location.tzinfo
+  ⟨[], []⟩,  -- 73 astral.moon.<module>
+  ⟨[], [26]⟩,  -- 74 astral.moon._phase_asfloat
+  ⟨[], [28, 83, 95, 99]⟩,  -- 75 astral.moon.azimuth
+  ⟨[], [28, 83, 95, 99]⟩,  -- 76 astral.moon.elevation
+  ⟨[], []⟩,  -- 77 astral.moon.interpolate
+  ⟨[], [79, 82]⟩,  -- 78 astral.moon.longitude_lunar_ascending_node
+  ⟨[], []⟩,  -- 79 astral.moon.moon_argument_of_latitude
+  ⟨[], []⟩,  -- 80 astral.moon.moon_mean_anomoly
+  ⟨[], []⟩,  -- 81 astral.moon.moon_mean_elongation_from_sun
+  ⟨[], []⟩,  -- 82 astral.moon.moon_mean_longitude
+  ⟨[], [78, 79, 80, 81, 82, 84, 91, 92, 93]⟩,  -- 83 astral.moon.moon_position
+  ⟨[], []⟩,  -- 84 astral.moon.moon_position._calc_value
+  ⟨[.mutatesParam], [90]⟩,  -- 85 astral.moon.moon_transit_event  (store through window; store through window; store through window)
+  ⟨[], [89, 143]⟩,  -- 86 astral.moon.moonrise
+  ⟨[], [89, 143]⟩,  -- 87 astral.moon.moonset
+  ⟨[], [74, 143]⟩,  -- 88 astral.moon.phase
+  ⟨[], [28, 77, 83, 85, 90, 99]⟩,  -- 89 astral.moon.riseset
+  ⟨[], []⟩,  -- 90 astral.moon.sgn
+  ⟨[], []⟩,  -- 91 astral.moon.sun_mean_anomoly
+  ⟨[], []⟩,  -- 92 astral.moon.sun_mean_longitude
+  ⟨[], []⟩,  -- 93 astral.moon.venus_mean_longitude
+  ⟨[], [76]⟩,  -- 94 astral.moon.zenith
+  ⟨[.readsClock], []⟩,  -- 95 astral.now
+  ⟨[], []⟩,  -- 96 astral.refraction_at_zenith
+  ⟨[], []⟩,  -- 97 astral.sidereal.<module>
+  ⟨[], [28]⟩,  -- 98 astral.sidereal.gmst
+  ⟨[], [98]⟩,  -- 99 astral.sidereal.lmst
+  ⟨[], []⟩,  -- 100 astral.sun.<module>
+  ⟨[], [26, 31, 112]⟩,  -- 101 astral.sun._midnight_utc
+  ⟨[], [26, 31, 112]⟩,  -- 102 astral.sun._noon_utc
+  ⟨[], []⟩,  -- 103 astral.sun.adjust_to_horizon
+  ⟨[], []⟩,  -- 104 astral.sun.adjust_to_obscuring_feature
+  ⟨[], [95, 139]⟩,  -- 105 astral.sun.azimuth
+  ⟨[], [134, 143]⟩,  -- 106 astral.sun.blue_hour
+  ⟨[], [135, 143]⟩,  -- 107 astral.sun.dawn
+  ⟨[], [132, 133, 143]⟩,  -- 108 astral.sun.daylight
+  ⟨[], [135, 143]⟩,  -- 109 astral.sun.dusk
+  ⟨[], []⟩,  -- 110 astral.sun.eccentric_location_earth_orbit
+  ⟨[], [95, 138]⟩,  -- 111 astral.sun.elevation
+  ⟨[], [110, 113, 114, 137]⟩,  -- 112 astral.sun.eq_of_time
+  ⟨[], []⟩,  -- 113 astral.sun.geom_mean_anomaly_sun
+  ⟨[], []⟩,  -- 114 astral.sun.geom_mean_long_sun
+  ⟨[], [134, 143]⟩,  -- 115 astral.sun.golden_hour
+  ⟨[], []⟩,  -- 116 astral.sun.hour_angle
+  ⟨[], []⟩,  -- 117 astral.sun.mean_obliquity_of_ecliptic
+  ⟨[], [101, 143]⟩,  -- 118 astral.sun.midnight
+  ⟨[], []⟩,  -- 119 astral.sun.minutes_to_timedelta
+  ⟨[], [107, 109, 143]⟩,  -- 120 astral.sun.night
+  ⟨[], [102, 143]⟩,  -- 121 astral.sun.noon
+  ⟨[], [117]⟩,  -- 122 astral.sun.obliquity_correction
+  ⟨[], [132, 133, 143]⟩,  -- 123 astral.sun.rahukaalam
+  ⟨[], [107, 109, 121, 132, 133, 143]⟩,  -- 124 astral.sun.sun
+  ⟨[], [131]⟩,  -- 125 astral.sun.sun_apparent_long
+  ⟨[], [122, 125]⟩,  -- 126 astral.sun.sun_declination
+  ⟨[], [113]⟩,  -- 127 astral.sun.sun_eq_of_center
+  ⟨[], [110, 130]⟩,  -- 128 astral.sun.sun_rad_vector
+  ⟨[], [122, 125]⟩,  -- 129 astral.sun.sun_rt_ascension
+  ⟨[], [113, 127]⟩,  -- 130 astral.sun.sun_true_anomoly
+  ⟨[], [114, 127]⟩,  -- 131 astral.sun.sun_true_long
+  ⟨[], [121, 135, 138, 143]⟩,  -- 132 astral.sun.sunrise
+  ⟨[], [121, 135, 138, 143]⟩,  -- 133 astral.sun.sunset
+  ⟨[], [135, 143]⟩,  -- 134 astral.sun.time_at_elevation
+  ⟨[], [26, 31, 96, 103, 104, 112, 116, 119, 126]⟩,  -- 135 astral.sun.time_of_transit
+  ⟨[], [107, 109, 132, 133, 143]⟩,  -- 136 astral.sun.twilight
+  ⟨[], [122]⟩,  -- 137 astral.sun.var_y
+  ⟨[], [95, 139]⟩,  -- 138 astral.sun.zenith
+  ⟨[], [26, 31, 96, 112, 126]⟩,  -- 139 astral.sun.zenith_and_azimuth
+  ⟨[], []⟩,  -- 140 astral.table4.<module>
+  ⟨[], []⟩,  -- 141 astral.time_to_hours
+  ⟨[], [141]⟩,  -- 142 astral.time_to_seconds
+  ⟨[], [95]⟩  -- 143 astral.today
 ]
 
 /-- the public sun and moon functions (sun.__all__, moon.__all__, moon angles) -/
-def publicFns : List Nat := [117, 100, 125, 114, 111, 126, 102, 101, 113, 129, 99, 108, 116, 131, 98, 104, 127, 79, 80, 81, 68, 69, 87]
+def publicFns : List Nat := [124, 107, 132, 121, 118, 133, 109, 108, 120, 136, 106, 115, 123, 138, 105, 111, 134, 86, 87, 88, 75, 76, 94]
 
 /-- the public geocoder functions (module-level, not underscore-prefixed) -/
 def geoFns : List Nat := [16, 17, 18, 19, 20, 21]
 
 /-- the functions of astral.julian and the time-unit helpers of astral/__init__ -/
-def julianFns : List Nat := [22, 24, 25, 26, 27, 28, 29, 30, 31, 134, 135]
+def julianFns : List Nat := [22, 24, 25, 26, 27, 28, 29, 30, 31, 141, 142]
+
+/-- every method of `Location` that is a query: not `__init__`, not a property setter -/
+def locationQueryFns : List Nat := [33, 35, 36, 37, 38, 39, 40, 41, 42, 43, 45, 47, 48, 49, 50, 51, 53, 54, 55, 56, 57, 59, 60, 62, 63, 64, 65, 66, 67, 68, 70, 71, 72]
+
+/-- the coordinate front end: dms_to_float and the validating `__setattr__`s -/
+def coordFns : List Nat := [1, 2, 3, 4, 5, 7]
 
 end Astral.Gen
